@@ -142,7 +142,9 @@ def r2(c):
 @rule('C05', 'R05.3', 'parser state discipline: Begin -> Header(checked header) -> Begin on a complete frame; reset = Begin')
 def r3(c):
     P = c.P
-    b = P.fn(PARSE)
+    import inline
+    # (looked at with MbapParser::reset written out: `self.state = Begin` and `self.reset()` are the same statement)
+    b = inline.expand(P, P.fn(PARSE), {'rodbus::tcp::frame::MbapParser::reset'})
     ph = one(b.calls(PARSE_HEADER), 'parse_header call')
     pb = one(b.calls(PARSE_BODY), 'parse_body call')
     # assignments to self.state
